@@ -17,7 +17,7 @@ def rules_for(prop):
         "C02": st.RULES + [ms.rule_ms, tm.rule_tm5, scan.rule_sd1],
         "C03": mx.RULES,
         "C04": [named(grp.rule_eq1, files=("rxsci/operators/group_by.py", "rxsci/state/memory_store.py", "rxsci/state/store.py",
-                                           "rxsci/operators/multiplex.py"), min_instances=12), named(grp.rule_fw1, heads=("group_by",)), grp.rule_fl1,
+                                           "rxsci/operators/multiplex.py"), min_instances=1), named(grp.rule_fw1, heads=("group_by",)), grp.rule_fl1,
                 named(lv.rule_lv, only=("group_by_mux._group_by.on_subscribe",)), ms.rule_ms],
         "C05": [grp.rule_roll, named(grp.rule_fw1, heads=("roll_count",)), st.rule_st2_3_4, st.rule_st6,
                 named(lv.rule_lv, only=("roll_mux._roll.subscribe", "roll_mux._roll_count.subscribe"))],
@@ -26,7 +26,7 @@ def rules_for(prop):
         "C10": seq.RULES + [named(grp.rule_eq1, files=("rxsci/operators/distinct.py", "rxsci/operators/distinct_until_changed.py",
                                                        "rxsci/operators/first.py", "rxsci/operators/take.py", "rxsci/operators/last.py",
                                                        "rxsci/data/lag.py", "rxsci/data/pad.py", "rxsci/operators/start_with.py",
-                                                       "rxsci/data/batch.py"), min_instances=30)],
+                                                       "rxsci/data/batch.py"), min_instances=1)],
         "C11": [pr.rule_pr1, pr.rule_pr2, grp.rule_pr3, seq.rule_dp6, st.rule_st1],
         "C12": [num.rule_nm1, ag.rule_ag4, named(scan.rule_pu1, files=("rxsci/math/sum.py", "rxsci/math/mean.py", "rxsci/math/min.py", "rxsci/math/max.py",
                                                           "rxsci/math/variance.py", "rxsci/math/stddev.py", "rxsci/math/formal/variance.py",
